@@ -202,3 +202,31 @@ package ring
 //@              len(result[j].Instances) >= 1 && result[j].ZoneAwarenessEnabled && 0 <= result[j].MaxUnavailableZones && result[j].MaxUnavailableZones < len(result[j].Instances)
 //@   loop 0 invariant forall j int :: 0 <= j && j < len(result) ==> (forall i int :: 0 <= i && i < len(result[j].Instances) ==> InstanceDesc.IsHealthy(result[j].Instances[i], op, r.heartbeatTimeout, gnow))
 //@   loop 1 invariant forall i int :: 0 <= i && i < len(instances) ==> InstanceDesc.IsHealthy(instances[i], op, r.heartbeatTimeout, gnow)
+//@
+//@ # ---- construction of the partition ring client's lookup arrays (C15: "active" in ActivePartitionForKey means the
+//@ # descriptor's state of the partition that registered the token; C14: the id array is the token -> partition map) ----
+//@ func buildRingTokenPartitionLookups
+//@   property C15 C14
+//@   ensures  ok: r2 == nil ==> len(r0) == len(ringTokens) && len(r1) == len(ringTokens) &&
+//@              (forall j int :: 0 <= j && j < len(ringTokens) ==> in(ringTokens[j], partitionByToken) && r0[j] == partitionByToken[ringTokens[j]] &&
+//@                  in(r0[j], partitions) && (r1[j] <==> partitions[r0[j]].State == PartitionActive))
+//@   ensures  err: r2 != nil ==> r2 == ErrInconsistentTokensInfo &&
+//@              (exists j int :: 0 <= j && j < len(ringTokens) && (!in(ringTokens[j], partitionByToken) || !in(partitionByToken[ringTokens[j]], partitions)))
+//@   loop 0 invariant len(ringPartitionIDs) == len(ringTokens) && len(ringPartitionActive) == len(ringTokens)
+//@   loop 0 invariant forall j int :: 0 <= j && j < $i ==> in(ringTokens[j], partitionByToken) && ringPartitionIDs[j] == partitionByToken[ringTokens[j]] &&
+//@                  in(ringPartitionIDs[j], partitions) && (ringPartitionActive[j] <==> partitions[ringPartitionIDs[j]].State == PartitionActive)
+//@   modifies nothing
+//@
+//@ pred tokOf(m map[int32]PartitionDesc, p int32, t uint32) = exists j int :: 0 <= j && j < len(m[p].Tokens) && m[p].Tokens[j] == t
+//@ func PartitionRingDesc.partitionByToken
+//@   property C15 C14
+//@   ensures  every: forall p int32, j int :: in(p, m.Partitions) && 0 <= j && j < len(m.Partitions[p].Tokens) ==> in(m.Partitions[p].Tokens[j], result)
+//@   ensures  owner: forall t uint32 :: in(t, result) ==> in(result[t], m.Partitions) && tokOf(m.Partitions, result[t], t)
+//@   loop 0 invariant !isnil(out)
+//@   loop 0 invariant forall p int32, j int :: $visited[p] && 0 <= j && j < len(m.Partitions[p].Tokens) ==> in(m.Partitions[p].Tokens[j], out)
+//@   loop 0 invariant forall t uint32 :: in(t, out) ==> in(out[t], m.Partitions) && tokOf(m.Partitions, out[t], t)
+//@   loop 1 invariant !isnil(out)
+//@   loop 1 invariant forall p int32, j int :: $visited[p] && p != partitionID && 0 <= j && j < len(m.Partitions[p].Tokens) ==> in(m.Partitions[p].Tokens[j], out)
+//@   loop 1 invariant forall j int :: 0 <= j && j < $i ==> in(partition.Tokens[j], out)
+//@   loop 1 invariant forall t uint32 :: in(t, out) ==> in(out[t], m.Partitions) && tokOf(m.Partitions, out[t], t)
+//@   modifies nothing
